@@ -477,6 +477,89 @@ func cellCounter(v ssa.Value, m *serverModel) (bool, string) {
 	return true, "variable initialised to 0 and assigned only by one `x = x + 1` of Run, executed once per accept-loop iteration before newConn (closures only read it)"
 }
 
+// generatorCounter recognises the connection ID handed out by a small
+// sequence object private to Run: `var ids seq; ...; id := ids.next()` where
+// next() does nothing but `q.last++; return q.last`, the object is a local of
+// Run used only as the receiver of that method, and the call is executed
+// once per accept-loop iteration before newConn.
+func generatorCounter(v ssa.Value, m *serverModel) (bool, string) {
+	call, ok := v.(*ssa.Call)
+	if !ok {
+		return false, ""
+	}
+	g := an.StaticCallee(call.Common())
+	if g == nil || !an.InModule(g) || len(g.Params) != 1 || len(call.Common().Args) != 1 || len(g.Blocks) != 1 {
+		return false, ""
+	}
+	al, isAl := call.Common().Args[0].(*ssa.Alloc)
+	if !isAl || al.Parent() != m.run {
+		return false, "the sequence object is not a local of Run"
+	}
+	for _, r := range *al.Referrers() {
+		switch x := r.(type) {
+		case *ssa.DebugRef:
+		case *ssa.Call:
+			if an.StaticCallee(x.Common()) != g {
+				return false, "the sequence object is used by something else than its next() method"
+			}
+		default:
+			return false, "the sequence object is used by something else than its next() method"
+		}
+	}
+	// body: t = *(&q.f); t1 = t + 1; *(&q.f) = t1; return t1
+	var st *ssa.Store
+	n := 0
+	an.Instrs(g, func(in ssa.Instruction) {
+		switch x := in.(type) {
+		case *ssa.Store:
+			st = x
+			n++
+		case ssa.CallInstruction:
+			n += 10
+		}
+	})
+	if n != 1 {
+		return false, "next() does more than one store"
+	}
+	fa, isFA := st.Addr.(*ssa.FieldAddr)
+	bo, isB := st.Val.(*ssa.BinOp)
+	if !isFA || fa.X != ssa.Value(g.Params[0]) || !isB || bo.Op != token.ADD {
+		return false, "next() does not increment a field of its receiver"
+	}
+	k, isK := an.IntConst(bo.Y)
+	ld, isLd := bo.X.(*ssa.UnOp)
+	if !isK || k != 1 || !isLd || ld.Op != token.MUL {
+		return false, "next() does not add one"
+	}
+	fa2, isFA2 := ld.X.(*ssa.FieldAddr)
+	if !isFA2 || fa2.X != fa.X || fa2.Field != fa.Field {
+		return false, "next() does not increment the field it reads"
+	}
+	rets := an.Returns(g)
+	if len(rets) != 1 || len(rets[0].Results) != 1 {
+		return false, "next() does not return the incremented value"
+	}
+	if rv := rets[0].Results[0]; rv != ssa.Value(bo) {
+		// `return q.last`: a re-load of the field after the (only) store
+		rl, isRL := rv.(*ssa.UnOp)
+		fa3, isFA3 := (ssa.Value)(nil), false
+		if isRL && rl.Op == token.MUL {
+			if f3, ok3 := rl.X.(*ssa.FieldAddr); ok3 && f3.X == fa.X && f3.Field == fa.Field {
+				fa3, isFA3 = f3, true
+			}
+		}
+		_ = fa3
+		if !isFA3 || !an.InstrDominates(st, rl) {
+			return false, "next() does not return the incremented value"
+		}
+	}
+	head := loopHeadOf(m.accept)
+	if loopHeadOf(call) != head || !an.InstrDominates(call, m.newConn) || an.Search(an.After(call), isInstr(call), inBlock(head)) != nil {
+		return false, "next() is not called exactly once per accept-loop iteration before newConn"
+	}
+	return true, "ID handed out by a sequence object private to Run (zero-initialised local, used only through " + fname(g) + ", which increments and returns its counter), once per accept-loop iteration before newConn"
+}
+
 func checkC09(c *Ctx) {
 	R := c.R
 	m := c.serverModel()
@@ -498,6 +581,10 @@ func checkC09(c *Ctx) {
 		// the counter kept in a variable cell (it is captured by some closure): same requirement on the cell
 		if ok2, why2 := cellCounter(idArg, m); ok2 {
 			ok, why = true, why2
+		} else if ok3, why3 := generatorCounter(an.Strip(idArg), m); ok3 {
+			ok, why = true, why3
+		} else if why3 != "" {
+			why = why3
 		}
 	}
 	if ok {
@@ -745,6 +832,12 @@ func checkC12(c *Ctx) {
 				}
 				if _, isB := cc.Value.(*ssa.Builtin); isB {
 					return false
+				}
+				// an accessor of the module that only returns a field (e.g. the connection ID for the log line)
+				if g := an.StaticCallee(cc); g != nil && an.InModule(g) {
+					if _, _, isGetter := an.FieldGetter(g); isGetter {
+						return false
+					}
 				}
 				return true
 			}
